@@ -54,6 +54,8 @@ def configs(tier, n):
                 continue
             if n >= 5 and pi > 0:
                 continue
+            if n >= 6 and subst not in ("GTR", "GeneralNonSym"):
+                continue  # 945 topologies x 15625 columns each: the two most general models only
             for site in sites:
                 for tree in TREE_KINDS:
                     for tips in TIPS:
